@@ -269,6 +269,31 @@ func init() {
 			},
 		})
 	}
+	p.Strata = append(p.Strata, mon.Stratum{
+		Name: "long-lists",
+		N:    qt(60, 1500),
+		Run: func(c *mon.Ctx, i int) {
+			// long lists that share almost everything: one scalar changed, one aligned container differing inside
+			n := c.R.Range(200, 700)
+			if i%3 == 0 {
+				n = c.R.Range(1030, 1200)
+			}
+			a := make([]any, n)
+			for j := range a {
+				a[j] = float64(c.R.Intn(50))
+			}
+			mid := n / 2
+			a[mid] = map[string]any{"p": 1.0, "q": 2.0}
+			b := ref.Clone(a).([]any)
+			b[mid] = map[string]any{"p": 1.0, "q": 3.0}
+			b[c.R.Intn(mid)] = "changed"
+			if c.R.Chance(0.5) {
+				b = append(b, "tail")
+			}
+			c.Feature("long_list_pairs")
+			c07Judge(c, ref.ToJSON(a), ref.ToJSON(b), OptNone)
+		},
+	})
 	for w, name := range []string{"root", "under-key", "in-array"} {
 		w := w
 		p.Strata = append(p.Strata, mon.Stratum{
